@@ -17,10 +17,11 @@ structure Hdr where
   ips : List Nat
   nc : Nat
   burst : Nat
+  secs : List SecState := []
 deriving Repr
 
 def Hdr.ipOf (h : Hdr) (c : Nat) : Nat := h.ips.getD c 0
-def Hdr.init (h : Hdr) : Srv := Srv.init h.now h.ips h.nc h.burst
+def Hdr.init (h : Hdr) : Srv := Srv.init h.now h.ips h.nc h.burst h.secs
 
 /-- the observer's record: the previous observation and its own bookkeeping -/
 structure Track where
@@ -38,7 +39,7 @@ def authAs (o : Option ConnObs) (x : Nat) : Bool := authPair o == (true, some x)
 
 /-- the client exists with usable, unexpired credentials -/
 def flagsOK (now : Nat) (cfg : ClientConfigT) : Bool :=
-  !models.ClientConfig.IsExpired now cfg && !cfg.deleted && cfg.hasKey
+  !models.ClientConfig.IsExpired now cfg && !cfg.deleted && cfg.secret == .usable
 
 /-- the address was neither banned nor blacklisted when the message arrived: by the observer's own record of
 explicit bans / blacklistings and by what the server itself reported after the previous event -/
@@ -58,7 +59,7 @@ def justified (now : Nat) (ipOf : Nat → Nat) (T : Track) (e : Event) (o : Step
   | .fc c' _ =>
     c' == c && x == T.prev.lookups.length && o.st.lookups.length == x + 1 && (o.resp == .new x || o.resp == .none)
   | .hs c' _ (.idx k) (.hmac key r) =>
-    c' == c && k == x && decide (x < T.prev.lookups.length) && flagsOK now (T.env.cl x) && key == x &&
+    c' == c && k == x && decide (x < T.prev.lookups.length) && flagsOK now (T.env.cl x) && key == .client x &&
     (match T.env.resolveN r with
      | some n => T.env.lastCh c == some n && !T.env.usedSeen.contains n
      | none => false) &&
